@@ -63,6 +63,10 @@ def classify(rc, out):
         return None
     if "MEMSIM-MISMATCH" in out:
         return "result-mismatch"
+    if "unsafe precondition(s) violated" in out:
+        # the standard library's own checks (debug builds) abort before the detector sees the access
+        m = re.search(r"unsafe precondition\(s\) violated: ([^\n]*)", out)
+        return "unsafe-precondition-violated:" + (m.group(1)[:80] if m else "")
     if "Undefined Behavior" in out:
         m = re.search(r"error: Undefined Behavior: ([^\n]*)", out)
         return "miri-ub:" + (m.group(1)[:80] if m else "")
